@@ -25,7 +25,7 @@ def case_strategy(draw, name):
   d = desc['d']
   c = dict(est=name, desc=desc, seed=draw(st.integers(0, 10 ** 6)), aseed=draw(st.integers(0, 999)),
            unknown=draw(st.booleans()), ufrac=draw(st.floats(0.1, 0.4, allow_nan=False)), useed=draw(st.integers(0, 9999)),
-           n_constraints=draw(st.one_of(st.none(), st.integers(3, 40))), mseed=draw(st.integers(0, 9999)))
+           n_constraints=draw(st.one_of(st.none(), st.integers(3, 40), st.integers(3, 40), st.integers(120, 500))), mseed=draw(st.integers(0, 9999)))
   if name in ('ITML_Supervised', 'SDML_Supervised', 'LSML_Supervised'):
     c['opt'] = draw(st.sampled_from(['identity', 'covariance', 'random', 'array']))
   elif name == 'MMC_Supervised':
